@@ -1,5 +1,7 @@
 import Proofs.Lemmas.ForkChoiceSim
 import Proofs.Lemmas.ForkChoiceLock
+import Proofs.Lemmas.ForkChoiceTotal
+import Proofs.Lemmas.ForkChoiceSpecPrune
 import Zrnt.ForkChoice.Spec
 import Zrnt.ForkChoice.Old
 /-!
@@ -8,13 +10,20 @@ import Zrnt.ForkChoice.Old
 Statements about the code-shaped model `Zrnt.ForkChoice` (tie H: modes `fc09`/`fc10`/`fc11` run the same
 operation lines on the real Go code, on this model and on the specification `Zrnt.ForkChoice.Spec`).
 
-`ProtoArray.OnPrune` and the users of node indices after a prune are defective on the current tree (known
-finding, `known_findings.jsonl`): the full-strength theorems about pruning are FALSE of the code. Each of them is
-kept as a comment, its negation is proved on a concrete witness history by `decide` (the same histories are in
-`corpus/fc10.ops` / `corpus/fc11.ops` and replay on the Go code), and the part that holds is proved as `…_partial`.
+`ProtoArray.OnPrune` was rewritten in /repo (commit 38d1471: one function; keep the finalized node and its
+transition descendants, report every dropped node once, compact the array and renumber every index, atomic when
+the sink fails). The theorems below are about the model of that code; what was false of the old code is kept as
+`Old.*`: negations proved by `decide` on witness histories against `Zrnt/ForkChoice/Old.lean`, the model of the
+code before the rewrite (the same histories are in `corpus/fc10.ops` / `corpus/fc11.ops`).
+
+Layers: `prune_exact`, `sink_once_canonical`, `sink_failure_safe` are about one `OnPrune` call on a state that
+satisfies the invariants and is related to a specification state (both are established for every reachable state
+of an admissible history: `C09.inv_weights`, `C09.head_eq_ghost`); `updates_refine`, `post_prune_ops_total`,
+`retained_queries_unchanged` (C11) are about whole histories.
 -/
 namespace Zrnt.Proofs.C10
 open Zrnt.ForkChoice
+open Zrnt.ForkChoice.Spec (Abs)
 
 /-- a root given by its first byte -/
 def rt (n : Nat) : Root := n * 256 ^ 31
@@ -23,14 +32,26 @@ def aa (k : Nat) : Root := 0xaa * 256 ^ 31 + k
 
 /-! ## UpdateJustified returns -/
 
-/- FULL STATEMENT (false of the current code, see `updateJustified_returns_false`):
-   `theorem updateJustified_returns : ∀ ops, ∀ a ∈ (run .none ops).2, a ≠ .blocked`
-   — no call of any history is answered `blocked` (= the Go call does not return within the watchdog). -/
+/-- **updateJustified_returns.** `UpdateJustified` returns (nil or error) — it neither blocks on the mutex (the
+exported method acquires `mu` once and its helpers use the graph directly) nor loops nor panics — on every instance
+that satisfies the invariants (`FI`: structure, chain structure, weights), whatever the checkpoints are: the new
+finalized checkpoint may move and the array is then pruned. The invariants hold again afterwards, so the next call
+returns as well; a prune cannot be left half done (`sink_failure_safe`). -/
+theorem updateJustified_returns (fc : FC) (hh : fc.held = false) (I : FI fc) (t : Root) (j f : Checkpoint)
+    (b : Option (List Nat)) :
+    fc.updateJustified t j f b ≠ .blocked ∧ fc.updateJustified t j f b ≠ .panic ∧
+    (∀ fc', (fc.updateJustified t j f b = .ok fc' () ∨ fc.updateJustified t j f b = .err fc') →
+      fc'.held = false ∧ FI fc') := by
+  have h := safeI_updateJustified fc hh I t j f b
+  revert h
+  cases fc.updateJustified t j f b with
+  | ok s u => exact fun h => ⟨nofun, nofun, fun fc' e => by rcases e with e | e <;> cases e; exact h⟩
+  | err s => exact fun h => ⟨nofun, nofun, fun fc' e => by rcases e with e | e <;> cases e; exact h⟩
+  | panic => exact fun h => h.elim
+  | blocked => exact fun h => h.elim
 
-/-- `UpdateJustified` returns (nil or error): it neither blocks on the mutex (the exported method acquires `mu`
-once and its helpers use the graph directly) nor loops nor panics — on every instance whose node array is well
-formed, i.e. as long as nothing has been pruned. -/
-theorem updateJustified_returns_partial (fc : FC) (hh : fc.held = false) (h : WF fc.pa) (t : Root) (j f : Checkpoint)
+/-- the same on arrays that are only well formed (malformed insertions), as long as the finalized checkpoint stays -/
+theorem updateJustified_returns_quiet (fc : FC) (hh : fc.held = false) (h : WF fc.pa) (t : Root) (j f : Checkpoint)
     (b : Option (List Nat)) (hq : f = fc.finalized) :
     fc.updateJustified t j f b ≠ .blocked ∧ fc.updateJustified t j f b ≠ .panic :=
   updateJustified_returns_wf fc hh h t j f b hq
@@ -40,7 +61,7 @@ example : ∃ fc : FC, fc.held = false ∧ WF fc.pa :=
   ⟨{ pa := PA.new 0 (rt 1) 0 0 0 .absent, votes := [], changed := true, spe := 4, balances := [], pin := none,
      justified := ⟨0, rt 1⟩, finalized := ⟨0, rt 1⟩, held := false }, rfl, wf_new ..⟩
 
-/-- After a prune that the sink interrupted, `UpdateJustified` can loop forever in `inSubtree`
+/-- The code before commit 38d1471: after a prune that the sink interrupted, `UpdateJustified` could loop forever in `inSubtree`
 (`pr.nodes[i]` is indexed without the offset, the parent walk revisits an index). Witness (replayed on Go:
 `blocked`): init 2 ff 0 ff 0 ff 0 ff fail3 …; eight blocks; justify 7f 1 01 1 01 …; justify de 2 aa…01 1 01 fail. -/
 def witBlocked : List Op := [
@@ -50,6 +71,10 @@ def witBlocked : List Op := [
   .block (rt 1) (rt 0x7f) 3 1 1,
   .justify (rt 0x7f) ⟨1, rt 1⟩ ⟨1, rt 1⟩ (some [32, 32, 32, 32, 1, 1]),
   .justify (rt 0xde) ⟨2, aa 1⟩ ⟨1, rt 1⟩ none]
+
+/-- `witBlocked` is inside the domain: with the rewritten `OnPrune` no call of it blocks or panics -/
+example : ∀ x ∈ (run .none witBlocked).2, x.isFatal = false :=
+  run_total witBlocked .none trivial (admissibleB_sound witBlocked .none (by decide +kernel))
 
 theorem Old.updateJustified_returns_false : ¬ ∀ ops, ∀ a ∈ (Zrnt.ForkChoice.Old.run .none ops).2, a ≠ Ans.blocked := by
   intro h
@@ -83,13 +108,93 @@ theorem outside_subtree_refused_justified (fc : FC) (f j : Checkpoint) (b : Opti
 
 /-! ## pruning -/
 
-/- FULL STATEMENTS (false of the current code):
-   `prune_exact` / `sink_once_canonical` / `retained_queries_unchanged`:
-     `∀ ops, (run .none ops).2 = (Spec.run none ops).2` up to `any` — after a successful update with a new
-     finalized checkpoint the retained node set is exactly the transition-descendants-or-self of the finalized
-     node, each dropped node is reported once with `canonical = ancestor of the head`, and every later answer is
-     the specification's.
-   `post_prune_ops_total`: no later operation panics. -/
+/-- **prune_exact.** `OnPrune(root, slot)` on a state that satisfies the invariants and is related to the
+specification state `a` (votes applied, sink log cleared — as `UpdateJustified` calls it) returns; the invariants
+hold again; the result is related to the specification's prune; and when the call succeeds on a known node the
+nodes of the array are, in order, exactly the nodes of the finalized subtree (`Abs.inFinalized`: the finalized
+node and its transition descendants, except through a block that fills the checkpoint slot of an empty-slot
+checkpoint). `indices`, `blockSlots`, parent / best-child / best-descendant indices and weights of the result are
+covered by `FI` (`WF`, `Chain`, `WeightsOK`) and `Ref`. -/
+theorem prune_exact (fc : FC) (a : Abs) (I : FI fc) (r : Ref fc a) (hset : ∀ v ∈ fc.votes, v.cur = v.next)
+    (hlog : fc.pa.sinkLog = []) (root : Root) (slot : Nat) :
+    match fc.pa.onPrune root slot with
+    | .ok s _ => FI { fc with pa := s } ∧ Ref { fc with pa := s } (a.prune ⟨slot, root⟩).1 ∧
+        (a.has ⟨slot, root⟩ = true → (absNodes s.nodes).map (·.ref) =
+          (a.nodes.filter (fun n => a.inFinalized ⟨slot, root⟩ a.fuel n.ref)).map (·.ref))
+    | .err s => FI { fc with pa := s } ∧ Ref { fc with pa := s } a
+    | _ => False := by
+  have h := pruneOK fc a I r hset hlog root slot
+  revert h
+  cases fc.pa.onPrune root slot with
+  | ok s u =>
+    intro h
+    refine ⟨h.1, h.2.1, fun hhas => ?_⟩
+    rw [← h.2.1.nodes]
+    exact Abs.prune_refs a ⟨slot, root⟩ hhas h.2.2.1
+  | err s =>
+    intro h
+    refine ⟨h.1, ?_⟩
+    have e := (Abs.prune_failed a ⟨slot, root⟩ h.2.2.1).1
+    rw [← e]; exact h.2.1
+  | panic => exact fun h => h
+  | spin => exact fun h => h
+
+/-- **sink_once_canonical.** With a sink, a successful `OnPrune` on a known node made exactly one sink call per
+dropped node, in insertion order, flagged canonical iff the node is a transition ancestor of the new finalized
+node (the nodes dropped from the chain that was finalized; everything else is an orphaned branch). -/
+theorem sink_once_canonical (fc : FC) (a : Abs) (I : FI fc) (r : Ref fc a) (hset : ∀ v ∈ fc.votes, v.cur = v.next)
+    (hlog : fc.pa.sinkLog = []) (root : Root) (slot : Nat) (hhas : a.has ⟨slot, root⟩ = true)
+    (hs : fc.pa.sink ≠ .absent) (s : PA) (e : fc.pa.onPrune root slot = .ok s ()) :
+    (sinkReport s.sinkLog).2 = none ∧
+    (sinkReport s.sinkLog).1 = (a.nodes.filter (fun n => !a.inFinalized ⟨slot, root⟩ a.fuel n.ref)).map
+      (fun n => (n.ref, a.tAncestorOrSelf n.ref a.fuel ⟨slot, root⟩)) := by
+  have h := pruneOK fc a I r hset hlog root slot
+  rw [e] at h
+  have h4 := h.2.2.2
+  rw [Abs.prune_ok_failed_none a _ h.2.2.1,
+    Abs.prune_sent a _ hhas h.2.2.1 (by rw [r.sink]; exact hs)] at h4
+  rw [h4]
+  exact ⟨rfl, rfl⟩
+
+/-- **sink_failure_safe.** When the sink fails at its `k`-th call `OnPrune` returns the error and has changed
+nothing but the sink log: no node is dropped, no index moved (the call can simply be repeated; the first `k` nodes
+are then reported again). The log shows the `k` delivered reports and the failing one. -/
+theorem sink_failure_safe (fc : FC) (a : Abs) (I : FI fc) (r : Ref fc a) (hset : ∀ v ∈ fc.votes, v.cur = v.next)
+    (hlog : fc.pa.sinkLog = []) (root : Root) (slot : Nat) (s : PA) (e : fc.pa.onPrune root slot = .err s) :
+    s = { fc.pa with sinkLog := s.sinkLog } ∧
+    ∃ k, fc.pa.sink = .failAt k ∧
+      (sinkReport s.sinkLog).1 = (a.reportsOf ⟨slot, root⟩).take k ∧
+      (sinkReport s.sinkLog).2 = (a.reportsOf ⟨slot, root⟩)[k]? ∧ ((a.reportsOf ⟨slot, root⟩)[k]?).isSome = true := by
+  constructor
+  · rcases onPrune_cases fc.pa I.wf root slot with ⟨_, e'⟩ | ⟨i, _, l, e' | ⟨_, e'⟩ | ⟨_, e'⟩⟩
+    · rw [e] at e'; cases e'
+    · rw [e] at e'; cases e'; rfl
+    · rw [e] at e'; cases e'
+    · rw [e] at e'; cases e'
+  · have h := pruneOK fc a I r hset hlog root slot
+    rw [e] at h
+    obtain ⟨_, k, hk, h1, h2, h3⟩ := Abs.prune_failed a ⟨slot, root⟩ h.2.2.1
+    refine ⟨k, by rw [← r.sink]; exact hk, ?_, ?_, h3⟩
+    · rw [h.2.2.2]; exact h1
+    · rw [h.2.2.2]; exact h2
+
+/-- **head_in_finalized_subtree.** On any instance related to the specification state left by a successful prune
+at a known node `anchor`, `Head()` returns an error or a node of the finalized subtree of `anchor` (read in the
+tree before the prune). -/
+theorem head_in_finalized_subtree (fc : FC) (a0 : Abs) (anchor : NodeRef) (hh : fc.held = false) (I : FI fc)
+    (hl : LI fc.pa) (hhas : a0.has anchor = true) (hok : (a0.prune anchor).2.2.2 = true)
+    (r : Ref fc (a0.prune anchor).1) :
+    match fc.head with
+    | .ok _ ref => a0.inFinalized anchor a0.fuel ref = true
+    | .err _ => True
+    | _ => False := by
+  have h := wrapperHead_sim fc _ hh I hl r
+  revert h
+  cases fc.head with
+  | ok s ref => exact fun h => Abs.head_in_finalized a0 anchor _ ref hhas hok h.2
+  | err s => exact fun _ => trivial
+  | panic => exact fun h => h
+  | blocked => exact fun h => h
 
 /-- finalization with a recording sink: init 4 01 0 00 0 01 0 01 rec 32,32,32; blocks 02@1, 0201@4, fe@5;
 justify fe 1 0201 1 0201 32,32,33; nodes -/
@@ -99,12 +204,16 @@ def witPrune : List Op := [
   .justify (rt 0xfe) ⟨1, 0x0201 * 256 ^ 30⟩ ⟨1, 0x0201 * 256 ^ 30⟩ (some [32, 32, 33]),
   .nodes]
 
-/-- `OnPrune` reports the FIRST node once per prunable node (`j` never advances) instead of each dropped node
-once, and the live node set afterwards is not the finalized subtree: the model of the code answers differently
-from the exact-prune specification on `witPrune` (replayed on Go: six times `01@0`). -/
+/-- the rewritten code on `witPrune`: the six nodes before the finalized one are reported once each, all canonical,
+and the three nodes of the finalized subtree stay — the specification's answers, line by line -/
+example : (run .none witPrune).2 = (Spec.run none witPrune).2 := by decide +kernel
+
+/-- The old `OnPrune` reported the FIRST node once per prunable node (`j` never advanced) instead of each dropped
+node once, and the live node set afterwards was not the finalized subtree: the model of the old code answers
+differently from the exact-prune specification on `witPrune` (replayed on Go before the fix: six times `01@0`). -/
 theorem Old.prune_exact_false : (Zrnt.ForkChoice.Old.run .none witPrune).2 ≠ (Spec.run none witPrune).2 := by decide +kernel
 
-/-- the same history with no sink: nothing at all is pruned -/
+/-- the same history with no sink: the old code pruned nothing at all -/
 def witPruneNil : List Op := [
   .init 4 (rt 1) 0 0 ⟨0, rt 1⟩ ⟨0, rt 1⟩ .absent [32, 32, 32],
   .block (rt 1) (rt 2) 1 0 0, .block (rt 2) (0x0201 * 256 ^ 30) 4 0 0, .block (0x0201 * 256 ^ 30) (rt 0xfe) 5 1 1,
@@ -115,7 +224,9 @@ theorem Old.prune_without_sink_false :
     (Zrnt.ForkChoice.Old.run .none witPruneNil).2.getLast? ≠ (Spec.run none witPruneNil).2.getLast? := by
   decide +kernel
 
-/-- after a partial prune (sink failing at its second call) the next `UpdateJustified` panics
+example : (run .none witPruneNil).2 = (Spec.run none witPruneNil).2 := by decide +kernel
+
+/-- old code: after a partial prune (sink failing at its second call) the next `UpdateJustified` panicked
 (`deltas[node.ForkchoiceParent - pr.indexOffset]` / stale absolute indices) -/
 def witPanic : List Op := [
   .init 2 (rt 1) 0 0 ⟨0, rt 1⟩ ⟨0, rt 1⟩ (.failAt 1) [32],
@@ -127,19 +238,28 @@ theorem Old.post_prune_ops_total_false : ¬ ∀ ops, ∀ a ∈ (Zrnt.ForkChoice.
   intro h
   exact h witPanic Ans.panic (by decide +kernel) rfl
 
+/-- **post_prune_ops_total.** No call of an admissible history — any number of finalizations and prunes, failing
+sinks included — is answered `panic`, `blocked` (endless loop or mutex) or `dead`. -/
+theorem post_prune_ops_total (ops : List Op) (ha : Admissible .none ops) : ∀ x ∈ (run .none ops).2, x.isFatal = false :=
+  run_total ops .none trivial ha
+
+/-- `witPanic` (failing sink, two finalizing updates) is inside the domain -/
+example : Admissible .none witPanic := admissibleB_sound witPanic .none (by decide +kernel)
+
 /-- no operation of ANY history that leaves the finalized checkpoint alone (malformed insertions included) panics,
 blocks or loops, and the structure invariant holds -/
 theorem no_panic_quiet (ops : List Op) (hq : Quiet .none ops) : MInv (run .none ops).1 :=
   inv_structure_quiet ops .none trivial hq
 
-/-- **Checkpoint updates refine the specification (admissible histories: the finalized checkpoint is never moved).**
+/-- **Checkpoint updates refine the specification (all admissible histories, finalizing updates included).**
 Every `UpdateJustified` answer of the model — accepted, or refused because the checkpoint is older/equal, unknown,
-outside the finalized or pinned subtree, below the finalized epoch, or the balance callback failed — and every
-`Justified()`, `Finalized()`, `Pin()`, `SetPin`, block/vote acceptance and head answer equals the specification's,
-position by position (`Refined` lists the operations); the states stay related. In particular a refused update
-changes nothing observable, and the head after an accepted update is the GHOST head for the new epochs and
-balances. -/
-theorem updates_refine_partial (ops : List Op) (ha : Admissible .none ops) :
+outside the finalized or pinned subtree, below the finalized epoch, the balance callback failed, or the sink failed
+during the prune — together with the list of sink calls it made, and every `Justified()`, `Finalized()`, `Pin()`,
+`SetPin`, block/vote acceptance and head answer equals the specification's, position by position (`Refined` lists
+the operations); the states stay related (`MRef`: in particular the node set is the specification's, i.e. after a
+finalization the finalized subtree). A refused update changes nothing observable, and the head after an accepted
+update is the GHOST head for the new epochs and balances on the pruned tree. -/
+theorem updates_refine (ops : List Op) (ha : Admissible .none ops) :
     AnswersAgree ops (run .none ops).2 (Spec.run none ops).2 ∧ MRef (run .none ops).1 (Spec.run none ops).1 :=
   refines_run ops .none none trivial trivial ha
 
@@ -156,4 +276,12 @@ example : Admissible .none histJ := admissibleB_sound histJ .none (by decide +ke
 
 example : (run .none histJ).2 = (Spec.run none histJ).2 := by decide +kernel
 
+/-- non-vacuity with pruning: the witness histories above are admissible, so `updates_refine` applies to them -/
+example : AnswersAgree witPrune (run .none witPrune).2 (Spec.run none witPrune).2 :=
+  (updates_refine witPrune (admissibleB_sound witPrune .none (by decide +kernel))).1
+
+example : AnswersAgree witPanic (run .none witPanic).2 (Spec.run none witPanic).2 :=
+  (updates_refine witPanic (admissibleB_sound witPanic .none (by decide +kernel))).1
+
 end Zrnt.Proofs.C10
+
